@@ -27,6 +27,7 @@ POOL_QUICK = [
     A("use", "n", "-5"), A("not", "n", "+7"),         # signed integer literals are integers, not malformed values
     A("use", "flag", "yes"), A("not", "flag", "off"), A("use", "flag", "maybe"),
     A("use", "flag", "No"), A("not", "flag", "FALSE"), A("not", "flag", "On"),       # boolean words are case-insensitive
+    A("use", "n", "50%"), A("not", "flag", "100%"),       # malformed values with a format character: non-matching like any other
     A("use", "zz", "1"), A("not", "zz", "1"),
     A("use", "a.b", "v"), A("not", "a.b", "w"),
     ("wip", "plain", None, None), ("use.with_os", "plain", None, None), ("used.with_os=win", "plain", None, None),
@@ -301,6 +302,12 @@ def run(spec, mon):
                       not bystander.should_exclude_with(["use.with_os=nosuch", "not.with_os=linux", "wip", "xnot.with_os=linux"])
                       and len(bystander.tag_matchers) == 0,
                       lambda: dict(config=config, bystander_members=len(bystander.tag_matchers)))
+        # a composite with a member that excludes when a tag is ABSENT, asked about elements without any tag, too
+        absent = tm.CompositeTagMatcher([matcher, tm.PredicateTagMatcher(lambda tags: "reviewed" not in tags)])
+        for tags_ in ([], ["reviewed"], ["wip"], ["reviewed", "use.with_zz=1"]):
+            want_ = ("reviewed" not in tags_)
+            got_ = absent.should_exclude_with(tags_)
+            mon.check("composite.member_excluding_on_absence", got_ == want_, lambda: dict(config=config, tags=tags_, want=want_, got=got_))
         mon.seen("provider_flavour", flavour)
         if flavour == "composite":
             mon.seen("composite_members_given_as", lab.last_composite_given_as)
